@@ -37,6 +37,12 @@ Theorem C04_rv_send_after_last_receiver : forall c s, CE s -> forall h hd v,
   /\ (h_async hd = false -> step c s (Send h v) = (s, OClosed, [EIntro v; EDropArg v])).
 Proof. exact rv_send_after_last_rx. Qed.
 
+Theorem C04_rv_poll_send_after_last_receiver : forall c s f w r0 v,
+  CE s -> nopen Rx (hs s) = 0 ->
+  aget f (fs s) = Some r0 -> f_side r0 = Tx -> f_reg r0 = false -> f_cell r0 = Some v ->
+  step c s (Poll f w) = (s, OReadyClosed, []).
+Proof. exact rv_poll_send_after_last_rx. Qed.
+
 Theorem C04_rv_try_send_closed_iff : forall c s, WF s -> CE s -> forall h hd v s' r e,
   h_live_side s h Tx = Some hd -> h_closed hd = false ->
   step c s (TrySend h v) = (s', r, e) ->
@@ -92,6 +98,20 @@ Theorem C04_rv_dead_sticky_except_F07_F34_F35 : forall c a ops1 s1 tr1 ops2 s2 t
   dead s2 /\ (forall v, ~ In (EHand v) (evs_of tr2))
   /\ (forall o r e, In (o, r, e) tr2 -> forall v, r <> OVal v).
 Proof. exact rv_dead_sticky_except. Qed.
+
+(* the hypotheses of the except-theorems are satisfiable on histories that do convert, clone and
+   poll -- just not on a closed handle *)
+Example C04_rv_except_example :
+  run_sat op_ok mpmc_cfg (init false)
+    [Clone 0 2; Conv 0; Conv 1; MkRecv 10 1; Poll 10 0; MkSend 11 0 100; Poll 11 1; Close 0; Conv 2;
+     Close 2; Poll 10 0; Clone 1 3; DropH 1]
+  /\ snd (fst (step mpmc_cfg (fst (run mpmc_cfg (init false)
+        [Clone 0 2; Conv 0; Conv 1; MkRecv 10 1; Poll 10 0; MkSend 11 0 100; Poll 11 1; Close 0; Conv 2;
+         Close 2; Poll 10 0; Clone 1 3; DropH 1])) (TryRecv 3))) = ODisc.
+Proof.
+  vm_compute. repeat split; auto;
+    right; intros x Hx Hr; inversion Hx; subst; try discriminate; reflexivity.
+Qed.
 
 (* non-vacuity: two sender clones, one closes (invisible), the other still hands off; after the last
    one closes the parked receiver is woken with Disconnected and try_send on the closed handle fails *)
